@@ -85,7 +85,18 @@ func recursionGuards(r *core.Run) {
 			return true
 		}
 		c := core.ExprStr(ifs.Cond)
-		if strings.Contains(c, "flatten") && strings.Contains(c, ".To == nil") && len(ifs.Body.List) > 0 {
+		// `<flatten flag> && <ref>.To == nil`: a boolean local (whatever it is called) together with the unlinked-reference test
+		hasFlag := false
+		if b, ok := core.Unparen(ifs.Cond).(*ast.BinaryExpr); ok && b.Op == token.LAND {
+			for _, side := range []ast.Expr{b.X, b.Y} {
+				if id, ok := core.Unparen(side).(*ast.Ident); ok {
+					if bt, ok := pk.TypesInfo.TypeOf(id).Underlying().(*types.Basic); ok && bt.Info()&types.IsBoolean != 0 {
+						hasFlag = true
+					}
+				}
+			}
+		}
+		if hasFlag && strings.Contains(c, ".To == nil") && len(ifs.Body.List) > 0 {
 			if ret, ok := ifs.Body.List[len(ifs.Body.List)-1].(*ast.ReturnStmt); ok && len(ret.Results) == 2 && !core.IsNilIdent(pk.TypesInfo, ret.Results[1]) {
 				found = true
 			}
